@@ -6,10 +6,15 @@
    indexed->channels - maps a well-formed image that means `pic` to a well-formed image that means a picture
    alpha-equivalent to `pic`; and the whole reduction pipeline, with or without alpha optimisation, keeps every
    candidate alpha-equivalent to the input (C03_reductions_alpha_partial; `leaves` as in C01).
-   The filter-specific rewrite of optimize_alpha (rows) and the container are decided per run by correspondence
+   THE FILTER-SPECIFIC REWRITE of optimize_alpha is proved too: each rewritten scan line differs from the line only in
+   the colour bytes of fully transparent pixels (C03_alpha_line), the stream filter_image writes with the optimisation
+   on decodes under the specification to a picture alpha-equivalent to the image's (C03_filter_alpha_stream, all ten
+   strategies, any Brute oracle), and the stream compressed into the emitted IDAT decodes to a picture alpha-equivalent
+   to the input's (C03_emitted_stream_alpha_partial). The container is decided per run by correspondence
    and the specification oracle (alpha-equivalence of decoded input and output). *)
 From OxiVerif Require Import Base.Common Spec.Adam7 Spec.Sem Model.Types Model.Options Model.Color Model.Palette Model.Reductions Model.Evaluate Model.Optimize
-  Proofs.Bridge Proofs.PixelProofs Proofs.ImageLift Proofs.LiftColor Proofs.LiftAlpha Proofs.PipelineLossless.
+  Proofs.Bridge Proofs.PixelProofs Proofs.ImageLift Proofs.LiftColor Proofs.LiftAlpha Proofs.PipelineLossless
+  Spec.Decode Model.Filters Proofs.AlphaLine Proofs.AlphaStream Proofs.EmittedStream.
 
 Theorem C03_partial_transparent_rgba : forall d r g b r' g' b',
   match color_of_samples SRGBA d [r; g; b; 0], color_of_samples SRGBA d [r'; g'; b'; 0] with
@@ -96,3 +101,33 @@ Theorem C03_emitted_alpha_partial : forall (L : leaves) e o img max_size c pic,
   optimize_raw e o img max_size = Ok (Some c) -> ameans pic (c_image c).
 Proof. exact optimize_raw_alpha_partial. Qed.
 Print Assumptions C03_emitted_alpha_partial.
+
+(* one scan line under optimize_alpha: same length, bytes, and pixel by pixel either unchanged or a fully transparent pixel
+   whose alpha bytes are kept *)
+Theorem C03_alpha_line : forall (bpp cb : nat) f data prev k,
+  (cb <= bpp)%nat -> (0 < bpp)%nat ->
+  length data = (k * bpp)%nat -> length prev = length data -> bytes_ok data -> bytes_ok prev -> (1 <= k)%nat ->
+  let data' := optimize_alpha_line f bpp data prev cb in
+  length data' = length data /\ bytes_ok data' /\
+  Forall2 (fun px px' => px' = px \/ (all_zero (skipn cb px) = true /\ skipn cb px' = skipn cb px /\ length px' = length px /\ bytes_ok px'))
+          (chunks_exact bpp data) (chunks_exact bpp data').
+Proof. intros bpp cb f data prev k Hcb Hb Hl Hp Hd Hpv Hk. exact (optimize_alpha_line_rel bpp cb Hcb Hb f data prev k Hl Hp Hd Hpv Hk). Qed.
+Print Assumptions C03_alpha_line.
+
+Theorem C03_filter_alpha_stream : forall brute (img : image) f stream pic,
+  wf img -> sem img = Some pic -> has_alpha (ctype (hdr img)) = true ->
+  filter_image brute img f true = Ok stream ->
+  exists pic', spec_decode_stream (width (hdr img)) (height (hdr img)) (spec_color_of (ctype (hdr img))) (depth (hdr img)) (interlaced (hdr img)) stream = Some pic'
+    /\ pic_aequiv pic pic'.
+Proof. exact filter_image_alpha_decodes. Qed.
+Print Assumptions C03_filter_alpha_stream.
+
+Theorem C03_emitted_stream_alpha_partial : forall (L : leaves) e o img max_size c pic,
+  scale_16 o = false -> ameans pic img ->
+  optimize_raw e o img max_size = Ok (Some c) ->
+  exists d stream pic', c_cdata c = z_deflate e d stream /\
+    spec_decode_stream (width (hdr (c_image c))) (height (hdr (c_image c))) (spec_color_of (ctype (hdr (c_image c))))
+                       (depth (hdr (c_image c))) (interlaced (hdr (c_image c))) stream = Some pic' /\
+    pic_aequiv pic pic'.
+Proof. exact emitted_stream_alpha_partial. Qed.
+Print Assumptions C03_emitted_stream_alpha_partial.
